@@ -411,7 +411,8 @@ def build():
     add(Spec("SkBaseTransformLearner",
              [lambda: sk.SkBaseTransformLearner(LinearRegression()),
               lambda: sk.SkBaseTransformLearner(LogisticRegression(C=0.7), "predict_proba"),
-              lambda: sk.SkBaseTransformLearner(DecisionTreeClassifier(max_depth=2), "predict", extra=3)],
+              lambda: sk.SkBaseTransformLearner(DecisionTreeClassifier(max_depth=2), "predict", extra=3),
+              lambda: sk.SkBaseTransformLearner(LogisticRegression(), "predict", copy=False, update=2)],
              clf_data, clf3, methods=["transform"], rowwise=["transform"], fit_in_place=True,
              alts={"model": [lambda est: (LogisticRegression(C=5.0) if est is None or est.method != "predict"
                                           or hasattr(est.model, "predict_proba") else Ridge(alpha=3.0))],
@@ -433,7 +434,9 @@ def build():
     for nm, cls in (("SkBase", SkBase), ("SkBaseLearner", sk.SkBaseLearner), ("SkBaseClassifier", sk.SkBaseClassifier),
                     ("SkBaseRegressor", sk.SkBaseRegressor), ("SkBaseTransform", SkBaseTransform)):
         add(Spec(nm, [lambda cls=cls: cls(alpha=1, name="n"), lambda cls=cls: cls(alpha=2.5, flag=True, name="m"),
-                      lambda cls=cls: cls()], reg_data, abstract=True,
+                      lambda cls=cls: cls(),
+                      # free-form keyword names that are also method names of containers (copy, items, get, update)
+                      lambda cls=cls: cls(copy=True, items=3, get="g", update=0.5)], reg_data, abstract=True,
                  alts={"name": [lambda: "zz"]}))
     add(Spec("BaseTimeSeries", [lambda: BaseTimeSeries(), lambda: BaseTimeSeries(past=3, delay2=4),
                                 lambda: BaseTimeSeries(preprocessing=TimeSeriesDifference(1))], ts_data, abstract=True,
